@@ -233,6 +233,7 @@ def gen_query(tier, seed):
 
 
 _DBS = {}
+_MIN = {}       # (db, method, witness, argument pattern) -> minimised failure key: one minimisation per pattern
 
 
 def cached_db(cls, recs):
@@ -240,6 +241,7 @@ def cached_db(cls, recs):
     if key not in _DBS:
         if len(_DBS) > 64:
             _DBS.clear()
+            _MIN.clear()
         with _tmpdir() as tmp:
             _DBS[key] = build(cls, recs, tmp)
     return _DBS[key]
@@ -286,19 +288,26 @@ def query_pattern(q):
     return "+".join(args) or "no-filter", win + ("/partial" if q.get("allow_partial") and win != "none" else "")
 
 
+WINDOW_CUTS = ({"start": None, "stop": None, "allow_partial": False}, {"allow_partial": False}, {"stop": None},
+               {"start": None})
+
+
 def minimise_query(db, items, q, method, kind):
     """greedily drop arguments while the same kind of failure persists"""
     q = dict(q)
-    for k in QKEYS:
-        if q.get(k) in (None, False):
+    same = lambda r: r is not None and r[0].split("[")[0] == kind.split("[")[0]
+    if method == "num_matches":
+        q.update(start=None, stop=None, allow_partial=False)
+    for k in QKEYS[:6]:
+        if q.get(k) is None:
             continue
-        trial = dict(q)
-        trial[k] = None if k != "allow_partial" else False
-        if method == "num_matches" and k in ("start", "stop", "allow_partial"):
+        trial = dict(q, **{k: None})
+        if same(run_query(db, items, trial, method)):
             q = trial
-            continue
-        r = run_query(db, items, trial, method)
-        if r is not None and r[0].split("[")[0] == kind.split("[")[0]:
+    # the window: drop it altogether, else drop allow_partial, else one side
+    for change in WINDOW_CUTS:
+        trial = dict(q, **change)
+        if trial != q and same(run_query(db, items, trial, method)):
             q = trial
     return q
 
@@ -313,11 +322,14 @@ def contract_query(case):
     for m in methods:
         r = run_query(db, items, q, m)
         if r is not None:
-            qmin = minimise_query(db, items, q, m, r[0])
-            r2 = run_query(db, items, qmin, m) or r
-            a, w = query_pattern(qmin)
-            return ("fail", f"query/{cls}/{m}/{a}/{w}/{r2[0]}",
-                    f"records {[proj_full(it) for it in items]} in {cls} db: {r2[1]}  [found with {q}]")
+            memo = (id(db), m, r[0], query_pattern(q))
+            if memo not in _MIN:
+                qmin = minimise_query(db, items, q, m, r[0])
+                r2 = run_query(db, items, qmin, m) or r
+                a, w = query_pattern(qmin)
+                _MIN[memo] = (f"query/{cls}/{m}/{a}/{w}/{r2[0]}", r2[1])
+            key, msg = _MIN[memo]
+            return ("fail", key, f"records {[proj_full(it) for it in items]} in {cls} db: {msg}  [found with {q}]")
     must, may = select(items, q)
     return ("ok", bool(must) and len(must) < len(items))
 
@@ -384,13 +396,13 @@ def contract_subset(case):
         must, _ = select(items, q)
         return ("ok", bool(must) and len(must) < len(items))
     qmin = dict(q)
-    for k in SUBKEYS:
-        if qmin.get(k) in (None, False):
-            continue
-        trial = dict(qmin)
-        trial[k] = None if k != "allow_partial" else False
-        rr = run_subset(db, items, trial, cls)
-        if rr is not None and rr[0].split("[")[0] == r[0].split("[")[0]:
+    same = lambda rr: rr is not None and rr[0].split("[")[0] == r[0].split("[")[0]
+    for k in SUBKEYS[:5]:
+        if qmin.get(k) is not None and same(run_subset(db, items, dict(qmin, **{k: None}), cls)):
+            qmin[k] = None
+    for change in WINDOW_CUTS:
+        trial = dict(qmin, **change)
+        if trial != qmin and same(run_subset(db, items, trial, cls)):
             qmin = trial
     r2 = run_subset(db, items, qmin, cls) or r
     a, w = query_pattern(qmin)
